@@ -335,7 +335,7 @@ def list_ops(P, T='List'):
     key = (id(P), T)
     if key not in _CACHE:
         out = {}
-        for op in ('push', 'pop', 'push_at', 'pop_at', 'rem', 'mem', 'get', 'set', 'resize') + (('concat',) if T == 'List' else ()):
+        for op in ('push', 'pop', 'push_at', 'pop_at', 'rem', 'mem', 'get', 'set', 'resize', 'concat') + (('assign',) if T == 'Array' else ()):
             try:
                 out[op] = (eval_list_op if T == 'List' else eval_array_op)(P, op)
             except Unsupported as x:
@@ -349,13 +349,13 @@ def report_list_ops(P, ctx, rule, which, site, T='List'):
     res = list_ops(P, T)
     for op, (bad, badr, unsup, ncase) in res.items():
         slot = {'push': ('Push', 'push'), 'pop': ('Push', 'pop'), 'push_at': ('Push', 'push_at'), 'pop_at': ('Push', 'pop_at'), 'concat': ('Concat', 'concat'),
-                'rem': ('Get', 'rem'), 'mem': ('Get', 'mem'), 'get': ('Get', 'get'), 'set': ('Get', 'set'), 'resize': ('Resize', 'resize')}[op]
+                'rem': ('Get', 'rem'), 'mem': ('Get', 'mem'), 'get': ('Get', 'get'), 'set': ('Get', 'set'), 'resize': ('Resize', 'resize'), 'assign': ('Assign', 'assign')}[op]
         fn = P.fn(P.slot(T, slot[0], slot[1]))
         ctx.fn(fn)
         if which == 'valid':
             ctx.stats['paths'] += ncase
         m = bad if which == 'valid' else badr
-        if which == 'refused' and op in ('push', 'mem', 'resize', 'concat'):
+        if which == 'refused' and op in ('push', 'mem', 'resize', 'concat', 'assign'):
             continue          # these have no refused calls
         if unsup and not m:
             ctx.undecided(rule, T + '.' + op, site(fn), 'leaves the evaluated fragment: ' + unsup)
@@ -391,6 +391,20 @@ class ArrayWorld:
         self.events = []
         self.freed = False
 
+    def restep(self):
+        """the element size may have changed (assign): the bytes reserved stay what they were, the slots are counted anew"""
+        P = self.P
+        if P.fn('Array_Step', required=False):
+            st = absmodel.sub(P, 'Array_Step', [SELF], self.atoms)
+        else:
+            st = absmodel.sub(P, 'Array_Item', [SELF, 1], self.atoms) - absmodel.sub(P, 'Array_Item', [SELF, 0], self.atoms)
+        if st != self.step:
+            k = len(self.slots) * self.step // st
+            if any(x != 'junk' and not x.startswith('dead') for x in self.slots):
+                raise Mismatch('the element size changes while the storage still holds elements')
+            self.slots = ['junk'] * k
+            self.step = st
+
     def slot_of_elem(self, addr, what):
         off = addr - self.DATA - self.hdr
         if off % self.step or not 0 <= off // self.step < len(self.slots):
@@ -406,15 +420,23 @@ class ArrayWorld:
 
 def eval_array_op(P, op):
     """-> (mismatch on a valid call, mismatch on a call that must be refused, unsupported, cases)"""
-    slot = {'push': ('Push', 'push'), 'pop': ('Push', 'pop'), 'push_at': ('Push', 'push_at'), 'pop_at': ('Push', 'pop_at'),
-            'rem': ('Get', 'rem'), 'mem': ('Get', 'mem'), 'get': ('Get', 'get'), 'set': ('Get', 'set'), 'resize': ('Resize', 'resize')}[op]
+    slot = {'push': ('Push', 'push'), 'pop': ('Push', 'pop'), 'push_at': ('Push', 'push_at'), 'pop_at': ('Push', 'pop_at'), 'concat': ('Concat', 'concat'),
+            'rem': ('Get', 'rem'), 'mem': ('Get', 'mem'), 'get': ('Get', 'get'), 'set': ('Get', 'set'), 'resize': ('Resize', 'resize'), 'assign': ('Assign', 'assign')}[op]
     fn = P.fn(P.slot('Array', slot[0], slot[1]))
     OBJ, KEYOBJ = 31337, 9000
+    NEWTYPE = 8600
+    OTHER, OTHERDATA, T_ARRAY, T_ELSE = ('ep', 'other', 0), 66000000, 5550001, 5550002
     bad, badr, unsup, ncase = None, None, None, 0
     for n in range(0, 4):
         for spare in (0, 2):
             if op in ('push', 'pop'):
                 variants = [None]
+            elif op == 'concat':
+                # the other iterable yields 0, 1 or 2 items; it is an Array of the same element type, or something else
+                variants = [(k_, t_) for k_ in (0, 1, 2) for t_ in (T_ARRAY, T_ELSE)]
+            elif op == 'assign':
+                # the source yields 0..3 items of an element type of the same size, a smaller or a larger one; it offers len and get, or only a cursor
+                variants = [(k_, (sz_, lg_)) for k_ in (0, 1, 2, 3) for sz_ in (8, 16, 40) for lg_ in (1, 0)]
             elif op in ('pop_at', 'get', 'set'):
                 variants = list(range(-n - 1, n + 1))
             elif op == 'push_at':
@@ -429,13 +451,75 @@ def eval_array_op(P, op):
                 target = None
                 if op in ('rem', 'mem'):
                     target = set() if var == 'absent' else ({'e0', 'e%d' % (n - 1)} if isinstance(var, tuple) else {'e%d' % var})
+                othertype = None
+                if op in ('concat', 'assign'):
+                    var, othertype = var
+                    for f_ in W.P.records['Array']['fields']:
+                        nm_ = f_[0] if isinstance(f_, (tuple, list)) else f_
+                        if ('elem', 'self', 0, nm_) in W.atoms:
+                            W.atoms[('elem', 'other', 0, nm_)] = W.atoms[('elem', 'self', 0, nm_)]
+                    W.atoms[('elem', 'other', 0, 'data')] = OTHERDATA
+                    W.atoms[('elem', 'other', 0, 'nitems')] = var
+                    W.atoms[('elem', 'other', 0, 'nslots')] = var
+                    W.atoms[('global', 'Array')] = T_ARRAY
+                    W.atoms[('elem', 'iterinst', 0, 'iter_init')] = 8801
+                    W.atoms[('elem', 'iterinst', 0, 'iter_next')] = 8802
 
-                def call(nm, e, it, W=W, var=var, target=target):
+                def call(nm, e, it, W=W, var=var, target=target, othertype=othertype):
                     if nm == 'c_int':
                         v = it.ev(e[2][0])
                         if isinstance(v, tuple) and v[0] == 'stack':
                             return v[2][0]
                         return var
+                    if op == 'assign':
+                        if nm in ('implements_method', 'implements_method_at_offset') and it.ev(e[2][0]) == OTHER:
+                            return 1 if ir.fmt(e[2][1]).endswith('Iter') else othertype[1]
+                        if nm == 'iter_type' and it.ev(e[2][0]) == OTHER:
+                            return NEWTYPE
+                        if nm == 'size' and it.ev(e[2][0]) == NEWTYPE:
+                            return othertype[0]
+                        if nm == 'get' and it.ev(e[2][0]) == OTHER:
+                            k_ = it.ev(e[2][1])
+                            k_ = k_[2][0] if isinstance(k_, tuple) and k_[0] == 'stack' else None
+                            if k_ is None or not 0 <= k_ < var:
+                                raise Mismatch('get on the source with an index outside it')
+                            return 7001 + k_
+                        if nm in ('malloc', 'calloc') or (nm == 'realloc' and (it.ev(e[2][0]) == 0 or W.freed)):
+                            b = it.ev(e[2][-1]) * (it.ev(e[2][0]) if nm == 'calloc' else 1)
+                            if not W.freed and W.slots:
+                                raise Mismatch('a new store is allocated while the old one is still held: it is never released')
+                            W.slots = []
+                            W.restep()
+                            if b % W.step:
+                                raise Mismatch('reserves %d bytes: not a whole number of slots' % b)
+                            W.slots = ['junk'] * (b // W.step)
+                            W.freed = False
+                            W.fresh_store = True
+                            return W.DATA
+                        if nm in ('memset', 'header_init', 'assign', 'realloc'):
+                            W.restep()
+                    if op in ('concat', 'assign'):
+                        if nm == 'len' and it.ev(e[2][0]) == OTHER:
+                            return var
+                        if nm == 'type_of' and it.ev(e[2][0]) == OTHER:
+                            return othertype
+                        if nm == 'method_at_offset':
+                            return ('ep', 'iterinst', 0)
+                        if nm in ('iter_init', 'iter_next') and it.ev(e[2][0]) == OTHER:
+                            c_ = 7000 if nm == 'iter_init' else it.ev(e[2][1])
+                            return c_ + 1 if c_ - 7000 < var else TERM
+                        if nm is None:
+                            f_ = it.ev(e[1])
+                            if f_ == 8801:
+                                return 7001 if var >= 1 else TERM
+                            if f_ == 8802:
+                                c_ = it.ev(e[2][1])
+                                return c_ + 1 if c_ - 7000 < var else TERM
+                            raise cint.NoEval('indirect call')
+                        if nm in ('memmove', 'memcpy'):
+                            s_ = it.ev(e[2][1])
+                            if isinstance(s_, int) and OTHERDATA <= s_ < OTHERDATA + 100000 and it.ev(e[2][2]) != 0:
+                                raise Mismatch('the bytes of the other Array\'s elements are copied into this one: elements are assigned (a deep copy), a byte copy shares what they own')
                     if nm == 'eq':
                         a, b = it.ev(e[2][0]), it.ev(e[2][1])
                         el = a if b == OBJ else (b if a == OBJ else None)
@@ -444,7 +528,9 @@ def eval_array_op(P, op):
                         return int(W.slots[W.slot_of_elem(el, 'compares')] in target)
                     if nm == 'destruct':
                         a = it.ev(e[2][0])
-                        W.events.append(('destruct', W.slots[W.slot_of_elem(a, 'destructs')]))
+                        k_ = W.slot_of_elem(a, 'destructs')
+                        W.events.append(('destruct', W.slots[k_]))
+                        W.slots[k_] = 'dead-' + W.slots[k_]
                         return a
                     if nm == 'assign':
                         a = it.ev(e[2][0])
@@ -498,8 +584,12 @@ def eval_array_op(P, op):
                 it = cint.CInt(P, fn, atoms=W.atoms, call=call, recurse=True, max_steps=6000, max_depth=6, strict=True)
                 it.atoms = W.atoms
                 args = {'push': [SELF, OBJ], 'pop': [SELF], 'push_at': [SELF, OBJ, KEYOBJ], 'pop_at': [SELF, KEYOBJ], 'rem': [SELF, OBJ], 'mem': [SELF, OBJ],
-                        'get': [SELF, KEYOBJ], 'set': [SELF, KEYOBJ, OBJ], 'resize': [SELF, var]}[op]
+                        'get': [SELF, KEYOBJ], 'set': [SELF, KEYOBJ, OBJ], 'resize': [SELF, var], 'concat': [SELF, OTHER], 'assign': [SELF, OTHER]}[op]
                 label = 'array of %d (%d slots reserved), %s%s' % (n, n + spare, op, '' if var is None else ('(%s)' % (var if not isinstance(var, tuple) else 'an argument equal to the first and the last element')))
+                if op == 'assign':
+                    label = 'array of %d (%d slots reserved), assign from a source of %d items of size %d %s' % (n, n + spare, var, othertype[0], 'with len and get' if othertype[1] else 'with a cursor only')
+                if op == 'concat':
+                    label = 'array of %d (%d slots reserved), concat of %s yielding %d items' % (n, n + spare, 'another Array of the same element type' if othertype == T_ARRAY else 'an iterable', var)
                 try:
                     r = it.run(args)
                 except Mismatch as x:
@@ -510,7 +600,12 @@ def eval_array_op(P, op):
                     unsup = unsup or '%s: %s at %s' % (label, r[1], P.cfg(fn).describe(r[2]))
                     continue
                 refuse, want, want_ret, removed, want_assign = None, list(old), None, [], None
-                if op == 'push':
+                if op == 'concat':
+                    want = old + ['fresh'] * var
+                elif op == 'assign':
+                    want = ['fresh'] * var
+                    removed = list(old)
+                elif op == 'push':
                     want = old + ['fresh']
                     want_assign = n
                 elif op == 'pop':
@@ -566,6 +661,16 @@ def eval_array_op(P, op):
                     bad = bad or '%s: the first %d slots hold %s, the sequence is %s' % (label, cnt, got, want)
                 elif sorted(des) != sorted(removed):
                     bad = bad or '%s: destructs %s, the elements that leave the array are %s' % (label, des, removed)
+                elif op == 'assign':
+                    if [(a_[1], a_[3]) for a_ in asg] != [(k_, 7001 + k_) for k_ in range(var)]:
+                        bad = bad or '%s: the new elements are not assigned from the items of the source, in order (%s)' % (label, [(a_[1], a_[3]) for a_ in asg])
+                    elif W.atoms[('elem', 'self', 0, 'type')] != NEWTYPE:
+                        bad = bad or '%s: the element type is not the source\'s' % label
+                    elif W.atoms[('elem', 'self', 0, 'nslots')] > len(W.slots):
+                        bad = bad or '%s: the slot count says %s, %d slots of the new element size are reserved' % (label, W.atoms[('elem', 'self', 0, 'nslots')], len(W.slots))
+                elif op == 'concat':
+                    if [(a_[1], a_[3]) for a_ in asg] != [(n + k_, 7001 + k_) for k_ in range(var)]:
+                        bad = bad or '%s: the new elements are not assigned from the items of the other iterable, in order (%s)' % (label, [(a_[1], a_[3]) for a_ in asg])
                 elif want_assign is not None and [(a_[1], a_[3]) for a_ in asg] != [(want_assign, OBJ)]:
                     bad = bad or '%s: assigns %s; expected the argument into slot %d' % (label, [(a_[1], a_[3]) for a_ in asg], want_assign)
                 elif want_assign is None and asg:
